@@ -13,6 +13,10 @@ package main
 //
 // The oracle is the ordinary one of the free-running leg (per-task run counters, nothing lost / twice / unaccepted,
 // FIFO for one worker, Shutdown returns, workers gone).
+//
+// Every-tier legs over dimensions the generators do not vary: diversity.go (reuse, nest, sizes, deep), values.go (awkward panic /
+// error values), legs4.go (errvals: returned error VALUES by errno / sentinel class, one task object per value, exactly once;
+// probe-env: the panic probe in children started with GOTRACEBACK / GODEBUG / GOMAXPROCS / GOGC / GOMEMLIMIT settings).
 
 import (
 	"fmt"
